@@ -11,7 +11,7 @@ CHECK = {
     "thorough": {"shards": 16, "timeout": 3600},
     "required_categories": ["types_2f_cart+hom", "types_2d_cart+hom", "types_3f_cart+hom", "types_3d_cart+hom",
                             "shape_coplanar_axis", "shape_coplanar_rotated", "shape_nearly_coplanar", "shape_three_points",
-                            "shape_clustered", "corr_subset", "corr_permuted", "preconditioned_sets_reused", "preconditioned_sets_fresh", "data_exact", "data_heavy_noise",
+                            "shape_clustered", "corr_subset", "corr_subset_far_from_rest", "corr_permuted", "preconditioned_sets_reused", "preconditioned_sets_fresh", "data_exact", "data_heavy_noise",
                             "angle_pi", "angle_zero"],
     "required_oracles": ["det_positive", "orthonormal", "exact.maps_source_onto_target",
                          "noisy.agrees_with_kabsch_on_cloud", "noisy.residual_excess", "variants_agree",
